@@ -40,6 +40,10 @@ func GnmiTypedValueToNativeType(gnmiTv *gnmi.TypedValue, modelPath *adminapi.Rea
 	case *gnmi.TypedValue_BytesVal:
 		return configapi.NewTypedValueBytes(v.BytesVal), nil
 	case *gnmi.TypedValue_DecimalVal:
+		// a decimal64 has at most 18 fraction digits; rendering a larger precision divides by an overflowed power of ten
+		if v.DecimalVal.Precision > 18 {
+			return nil, fmt.Errorf("decimal64 precision %d is out of range", v.DecimalVal.Precision)
+		}
 		return configapi.NewTypedValueDecimal(v.DecimalVal.Digits, uint8(v.DecimalVal.Precision)), nil
 	case *gnmi.TypedValue_FloatVal:
 		// big.NewFloat panics on a NaN
